@@ -16,7 +16,8 @@ TECHNIQUE = 'runtime monitor over delivered snapshots: bound assertions + refere
 RULE = ('generated frames whose graph exceeds one or several of the four limits (wide lists/sets/tuples, long '
         'strings, deep nests, many variables, cycles), the big structure declared first / middle / last; limits at '
         'their defaults (1000 / 1024 / 10 / 5) and, when the per-action limit keys are honoured (calibrated at run '
-        'time), drawn from 1-40; non-trivial = at least one limit actually bit; distinct by canonical case')
+        'time), drawn from 1-40 (depth also at its boundary settings 2, 1, 0, -1); watch, log and captured values under the '
+        'same limits; non-trivial = at least one limit actually bit; distinct by canonical case')
 ASSUMPTIONS = ['depth is counted from the frame variable (=1); the property bound is "not deeper than the maximum", '
                'the implementation stops earlier, which is allowed',
                'level-order oracle only uses kinds the documentation says have children (dict, list, tuple, set, '
